@@ -74,6 +74,25 @@ def _call(g, req, rel):
         return t.spline(seq(req["controls"]))
     if shape == "polyline":
         return t.polyline(seq(req["controls"]))
+    if shape == "mixed":
+        # plain moves (offsets in relative mode), absolute-bypass moves (absolute coordinates in both modes) and mode
+        # context managers: the same waypoints must be visited in both runs (C11)
+        prev = s
+        for op, p in zip(req["ops"], req["controls"]):
+            off = tuple(p[i] - prev[i] for i in range(3))
+            ab = tuple(p)
+            if op in ("move", "rapid"):
+                getattr(g, op)(off if rel else ab)
+            elif op in ("move_absolute", "rapid_absolute"):
+                getattr(g, op)(x=ab[0], y=ab[1], z=ab[2])
+            elif op == "ctx_abs":
+                with g.absolute_mode():
+                    g.move(ab)
+            else:
+                with g.relative_mode():
+                    g.rapid(off)
+            prev = p
+        return None
     if shape == "parametric":
         # a user curve in ABSOLUTE work coordinates (the API's meaning in both distance modes); f(0) need not be where the tool is
         import numpy as np
@@ -116,6 +135,7 @@ def record(req):
           "centers": [q3(c, u) for c in req.get("centers", [req.get("center", req["start"])])], "r": q(req.get("r", 0.0), u),
           "turns": int(req.get("turns", 1)), "far": bool(req.get("far", False)), "len": q(req.get("len", 0.0), u),
           "minor": req.get("minor", "any"), "controls": [q3(p, u) for p in req.get("controls", [])], "onlyA": only,
+          "cr": bool(req.get("cr", False)),
           "outA": outA, "outR": outR, "outH": outH, "linesA": la, "linesR": lr, "linesH": lh}
     return ev
 
@@ -140,7 +160,7 @@ def pt(rng, lo=-40, hi=40):
 
 
 def gen(rng, shape=None):
-    shape = shape or rng.choice(["arc", "arc", "arc_radius", "circle", "helix", "spiral", "thread", "spline", "polyline", "parametric"])
+    shape = shape or rng.choice(["arc", "arc", "arc_radius", "circle", "helix", "spiral", "thread", "spline", "polyline", "parametric", "mixed"])
     res = rng.choice([0.5, 1.0, 2.0])
     ccw = rng.random() < 0.5
     s = pt(rng) if rng.random() < 0.85 else [0.0, 0.0, 0.0]
@@ -183,9 +203,23 @@ def gen(rng, shape=None):
         r1 = rng.uniform(5 * res, 30) if rng.random() < 0.7 else r0
         a0 = rng.uniform(-math.pi, math.pi)
         c = [s[0] - r0 * math.cos(a0), s[1] - r0 * math.sin(a0), s[2]]
-        a1 = a0 + sgn * rng.uniform(0.2, 2 * math.pi - 0.2)
+        base = rng.uniform(0.2, 2 * math.pi - 0.2)
+        a1 = a0 + sgn * base
         t = [c[0] + r1 * math.cos(a1), c[1] + r1 * math.sin(a1), s[2] + rng.uniform(-8, 8)]
-        req.update(target=t, center=c, centers=[c], r=r0, turns=rng.choice([1, 1, 2, 3]), far=True)
+        turns = rng.choice([1, 1, 2, 3, 4])
+        # a constant-radius helix is a constant-speed shape (C12): its length is known in closed form
+        total = base + 2 * math.pi * (turns - 1)
+        req.update(target=t, center=c, centers=[c], r=r0, turns=turns, far=True, cr=(r1 == r0),
+                   len=math.hypot(r0 * total, t[2] - s[2]) if r1 == r0 else 0.0)
+    elif shape == "mixed":
+        n = rng.randint(3, 7)
+        pts, prev, ops = [], s, []
+        for _ in range(n):
+            p = [round(prev[0] + rng.uniform(-20, 20), 2), round(prev[1] + rng.uniform(-20, 20), 2), round(prev[2] + rng.uniform(-4, 4), 2)]
+            pts.append(p)
+            ops.append(rng.choice(["move", "rapid", "move_absolute", "rapid_absolute", "ctx_abs", "ctx_rel"]))
+            prev = p
+        req.update(target=pts[-1], controls=pts, ops=ops)
     elif shape == "parametric":
         # an elliptic / Lissajous-like user curve given in absolute coordinates, starting at or away from the tool position
         a, b = rng.uniform(5 * res, 25), rng.uniform(5 * res, 25)
